@@ -1,6 +1,9 @@
 package main
 
 import (
+	"time"
+	"io"
+	"sync"
 	"context"
 	"encoding/json"
 	"fmt"
@@ -208,8 +211,37 @@ func checkC15(c *Ctx) {
 			c.Add("traces_validated_against_impl", 1)
 		}
 	}
+	// stack-trace levels are enablers: thresholds, AtomicLevels moved at run time, arbitrary sets
+	c.MustTLC(TLCOpts{Module: "StackLevels", Cfg: "StackLevels.check"})
+	c.MustTLC(TLCOpts{Module: "StackLevels", Cfg: "StackLevels.check", Consts: map[string]string{"Read": `"frozen"`}, ExpectViolation: true})
+	nsl := 0
+	c.MustTLC(TLCOpts{Module: "StackLevels", Cfg: "StackLevels.check", Gen: true, Consts: map[string]string{"Emit": "TRUE", "MaxSteps": fmt.Sprint(c.Pick(3, 4))}, OnBeh: func(raw json.RawMessage) {
+		if c.Saturated() {
+			return
+		}
+		var b slBeh
+		if err := json.Unmarshal(raw, &b); err != nil {
+			c.Inconclusive("bad StackLevels behaviour: %v", err)
+			return
+		}
+		nsl++
+		if b.Kind != "set" && len(b.En0) == 0 {
+			return
+		}
+		for _, f := range replayStackLevels(b, nsl) {
+			c.Violation(f.Key, f.What, map[string]interface{}{"mode": "stack-levels", "beh": b, "variant": nsl})
+		}
+		c.Add("traces_validated_against_impl", 1)
+	}})
+	c.Set("stack_level_histories", int64(nsl))
+	for _, f := range replayCallerConcurrent(c.Pick(6, 60)) {
+		c.Violation(f.Key, f.What, map[string]interface{}{"mode": "concurrent-after-unresolvable-caller"})
+	}
 	for _, f := range replaySlogCaller() {
 		c.Violation(f.Key, f.What, nil)
+	}
+	for _, f := range replaySlogSkip() {
+		c.Violation(f.Key, f.What, map[string]interface{}{"mode": "slog-caller-skip"})
 	}
 	for _, f := range replayPanicStack() {
 		c.Violation(f.Key, f.What, nil)
@@ -437,6 +469,52 @@ func c15panicOuter(l *zap.Logger, s *zap.SugaredLogger) {
 	c15panicInner(nil)
 }
 
+//go:noinline
+func c15slogW1(lg *slog.Logger, lvl slog.Level, line *int) { c15slog(lg, lvl, line) }
+
+//go:noinline
+func c15slogW2(lg *slog.Logger, lvl slog.Level, line *int) { c15slogW1(lg, lvl, line) }
+
+// replaySlogSkip: WithCallerSkip(k) moves the start of the stack trace out by k wrapper frames, on the handler
+// it was given to and on every handler derived from it; the caller stays the call site slog recorded.
+func replaySlogSkip() (finds []Finding) {
+	add := func(key, f string, a ...interface{}) {
+		if len(finds) < 4 {
+			finds = append(finds, Finding{Key: key, What: fmt.Sprintf(f, a...)})
+		}
+	}
+	wantFirst := []string{"main.c15slog", "main.c15slogW1", "main.c15slogW2"}
+	for k := 0; k <= 2; k++ {
+		core, logs := observer.New(zapcore.DebugLevel)
+		h := zapslog.NewHandler(core, zapslog.WithCaller(true), zapslog.WithCallerSkip(k), zapslog.AddStacktraceAt(slog.LevelWarn))
+		hs := map[string]slog.Handler{
+			"the handler itself":    h,
+			"WithAttrs":             h.WithAttrs([]slog.Attr{slog.Int("a", 1)}),
+			"WithGroup":             h.WithGroup("g"),
+			"WithGroup+WithAttrs":   h.WithGroup("g").WithAttrs([]slog.Attr{slog.Int("a", 1)}),
+			"WithAttrs+WithGroup x2": h.WithAttrs([]slog.Attr{slog.Int("a", 1)}).WithGroup("g").WithGroup("h"),
+		}
+		for name, hh := range hs {
+			logs.TakeAll()
+			line := 0
+			c15slogW2(slog.New(hh), slog.LevelError, &line)
+			es := logs.TakeAll()
+			if len(es) != 1 {
+				add("C15/entry-count", "slog handler (%s, caller skip %d): %d entries", name, k, len(es))
+				continue
+			}
+			e := es[0]
+			if !e.Caller.Defined || e.Caller.Function != "main.c15slog" || e.Caller.Line != line {
+				add("C15/caller-differs", "slog handler (%s, caller skip %d) reports caller %s:%d (%s), slog recorded c15.go:%d (main.c15slog)", name, k, e.Caller.File, e.Caller.Line, e.Caller.Function, line)
+			}
+			if first := strings.SplitN(e.Stack, "\n", 2)[0]; first != wantFirst[k] {
+				add("C15/stack-first-frame", "slog handler (%s) with WithCallerSkip(%d): stack starts at %q, want %s", name, k, first, wantFirst[k])
+			}
+		}
+	}
+	return finds
+}
+
 // replayPanicStack: an entry logged from a deferred function while a panic unwinds still shows the whole chain.
 func replayPanicStack() (finds []Finding) {
 	core, logs := observer.New(zapcore.DebugLevel)
@@ -498,6 +576,155 @@ func replaySlogCaller() (finds []Finding) {
 			if es := logs.TakeAll(); len(es) != 1 || es[0].Caller.Line != line || es[0].Caller.Function != "main.c15slogInfo" {
 				add("C15/caller-differs", "slog.Logger.Info: caller %+v, want line %d in main.c15slogInfo", es, line)
 			}
+		}
+	}
+	return finds
+}
+
+// ---- stack-trace levels as enablers (StackLevels.tla) ----
+
+type slStep struct {
+	Op     string `json:"op"`
+	Lvl    int    `json:"lvl"`
+	Attach bool   `json:"attach"`
+}
+type slBeh struct {
+	Kind string   `json:"kind"`
+	En0  []int    `json:"en0"`
+	H    []slStep `json:"h"`
+}
+
+func replayStackLevels(b slBeh, variant int) (finds []Finding) {
+	add := func(key, f string, a ...interface{}) {
+		if len(finds) < 4 {
+			finds = append(finds, Finding{Key: key, What: fmt.Sprintf(f, a...) + fmt.Sprintf(" [stack-trace enabler kind %s, initially enabling %v, history %v, variant %d]", b.Kind, b.En0, b.H, variant)})
+		}
+	}
+	shift := variant % 2 // abstract level 0 is Debug or Info
+	conc := func(l int) zapcore.Level { return zapcore.Level(l - 1 + shift) }
+	var en zapcore.LevelEnabler
+	var atom zap.AtomicLevel
+	switch b.Kind {
+	case "threshold":
+		en = conc(b.En0[0])
+	case "atomic":
+		atom = zap.NewAtomicLevelAt(conc(b.En0[0]))
+		en = atom
+	case "set":
+		set := map[zapcore.Level]bool{}
+		for _, l := range b.En0 {
+			set[conc(l)] = true
+		}
+		en = zap.LevelEnablerFunc(func(l zapcore.Level) bool { return set[l] })
+	}
+	core, logs := observer.New(zapcore.DebugLevel)
+	var l *zap.Logger
+	switch variant % 3 {
+	case 0:
+		l = zap.New(core, zap.AddStacktrace(en))
+	case 1:
+		l = zap.New(core).WithOptions(zap.AddStacktrace(en))
+	default:
+		l = zap.New(core, zap.AddStacktrace(zapcore.FatalLevel)).With(zap.Int("a", 1)).WithOptions(zap.AddStacktrace(en), zap.AddCaller())
+	}
+	derived := []*zap.Logger{l, l.With(zap.Int("d", 1)), l.Named("n"), l.Sugar().Desugar(), l.WithLazy(zap.Int("z", 1))}
+	for i, st := range b.H {
+		if st.Op == "set" {
+			atom.SetLevel(conc(st.Lvl))
+			continue
+		}
+		lg := derived[(i+variant)%len(derived)]
+		logs.TakeAll()
+		if (i+variant)%2 == 0 {
+			lg.Log(conc(st.Lvl), "m")
+		} else {
+			lg.Sugar().Logw(conc(st.Lvl), "m", "k", 1)
+		}
+		es := logs.TakeAll()
+		if len(es) != 1 {
+			add("C15/entry-count", "step %d: %d entries", i, len(es))
+			continue
+		}
+		if got := es[0].Stack != ""; got != st.Attach {
+			add("C15/stack-levels", "step %d: entry at %v: stack trace attached = %v, the configured enabler says %v at that moment", i, conc(st.Lvl), got, st.Attach)
+		}
+	}
+	return finds
+}
+
+// ---- concurrent annotated logging after an entry whose caller could not be resolved ----
+
+func replayCallerConcurrent(rounds int) (finds []Finding) {
+	add := func(key, f string, a ...interface{}) {
+		if len(finds) < 4 {
+			finds = append(finds, Finding{Key: key, What: fmt.Sprintf(f, a...)})
+		}
+	}
+	var mu sync.Mutex
+	for round := 0; round < rounds && len(finds) == 0; round++ {
+		core, _ := observer.New(zapcore.DebugLevel)
+		discard := zap.ErrorOutput(zapcore.AddSync(io.Discard))
+		// history: entries whose caller skip runs past the end of the stack (reported on the error output)
+		lost := zap.New(core, zap.AddCaller(), zap.AddCallerSkip(100000), discard)
+		lost.Info("caller skip beyond the stack")
+		lost.Warn("again", zap.Int("round", round))
+		const G = 6
+		var wg sync.WaitGroup
+		done := make(chan struct{})
+		for gi := 0; gi < G; gi++ {
+			wg.Add(1)
+			go func(gi int) {
+				defer wg.Done()
+				defer func() {
+					if p := recover(); p != nil {
+						mu.Lock()
+						add("C15/panic", "goroutine %d panicked while logging with caller annotation after an unresolvable-caller entry: %v", gi, p)
+						mu.Unlock()
+					}
+				}()
+				gcore, glogs := observer.New(zapcore.DebugLevel)
+				l := zap.New(gcore, zap.AddCaller(), zap.AddStacktrace(zapcore.WarnLevel), zap.AddCallerSkip(gi), discard)
+				w := &c15w{l: l, s: l.Sugar(), fe: 2}
+				if gi%2 == 1 {
+					w.fe = 8
+					w.s = zap.New(gcore, zap.AddCaller(), zap.AddStacktrace(zapcore.WarnLevel), zap.AddCallerSkip(gi), discard).Sugar()
+				}
+				wantFn := fmt.Sprintf("main.c15f%d", gi)
+				for it := 0; it < 400; it++ {
+					w.lvl = zapcore.InfoLevel
+					if it%3 == 0 {
+						w.lvl = zapcore.WarnLevel
+					}
+					c15deep(1+(it%5)*20, w, c15fs[gi])
+					es := glogs.TakeAll()
+					if len(es) != 1 {
+						continue
+					}
+					e := es[0]
+					if !e.Caller.Defined || e.Caller.Function != wantFn || e.Caller.Line != w.lines[gi] {
+						mu.Lock()
+						add("C15/caller-differs", "concurrent logging (goroutine %d of %d, after an entry whose caller could not be resolved): caller %s:%d (%s) defined=%v, the call site is c15.go:%d (%s)", gi, G, e.Caller.File, e.Caller.Line, e.Caller.Function, e.Caller.Defined, w.lines[gi], wantFn)
+						mu.Unlock()
+						return
+					}
+					if w.lvl == zapcore.WarnLevel {
+						first := strings.SplitN(e.Stack, "\n", 2)[0]
+						if first != wantFn || strings.Count(e.Stack, "main.c15deep\n") != 1+(it%5)*20 {
+							mu.Lock()
+							add("C15/stack-incomplete", "concurrent logging (goroutine %d): stack starts at %q with %d of %d recursion frames, want %s", gi, first, strings.Count(e.Stack, "main.c15deep\n"), 1+(it%5)*20, wantFn)
+							mu.Unlock()
+							return
+						}
+					}
+				}
+			}(gi)
+		}
+		go func() { wg.Wait(); close(done) }()
+		select {
+		case <-done:
+		case <-time.After(30 * time.Second):
+			add("C15/capture-hangs", "goroutines logging with caller/stack annotation made no progress for 30 s after an entry whose caller could not be resolved:\n%s", zapStacks())
+			return
 		}
 	}
 	return finds
